@@ -32,7 +32,7 @@ var assumptions = map[string][]string{
 	"C13": {
 		"the Go race runtime (ThreadSanitizer) reports every conflicting access pair not ordered by happens-before; the baton uses raw syscalls so the harness adds no happens-before edges between tasks",
 		"sync.Pool inside package regexp adds genuine happens-before edges that can mask a conflicting pair in a given execution; many interleavings per policy compensate",
-		"construction is finished before the policy is shared (as the property states); callbacks are pure",
+		"construction is finished before the policy is shared (as the property states); callbacks are deterministic functions of their argument (one of them panics on one host, as an injected fault)",
 		"map iteration order is controlled only at `range` statements of bluemonday's own packages (instrumented scratch copy), not inside dependencies",
 	},
 	"C17": {
@@ -72,7 +72,7 @@ var probes = map[string][]string{
 		"blank_inputs", "retention_checks", "multi_read_execs", "long_inputs", "writer.sw", "writer.plain", "writer.buf", "writer.builder"},
 	"C13": {"context_switches", "points.read", "points.write", "points.cb", "points.map", "ops.Sanitize", "ops.SanitizeBytes",
 		"ops.SanitizeReader", "ops.SanitizeReaderToWriter", "ops_with_fault", "map_order.canonical", "map_order.reversed", "map_order.random",
-		"callbacks", "map_site_visits_ge2keys.*", "map_site_perms.*"},
+		"callbacks", "callback_panic_fired", "map_site_visits_ge2keys.*", "map_site_perms.*"},
 	"C17": {"check.interleave", "check.isolation", "check.order", "check.case", "check.recent", "check.reuse", "check.split", "recent_calls_dropped", "instance_switches", "sanitize_between_builder_calls"},
 }
 
